@@ -382,6 +382,14 @@ def modelStep {iv : Nat} (d : DSt iv) (op : List String) : Option (MOut iv) :=
     let dups := (outs.filter fun o => match o with | .duplicate => true | _ => false).length
     pure { d := d, view := none, branch := if oks == 1 then s!"one-of-{n}" else s!"{oks}-of-{n}",
            ret := s!"ok acks={rounds * oks} dups={rounds * dups} other={rounds * (n - oks - dups)} reload={if oks == 1 then rounds else 0} multi=0" }
+  -- `threads` workers x `rounds` distinct `put`s to one write-ahead-log entity while another store object keeps
+  -- writing the snapshot and pruning the change sets: in every serial order each command is acknowledged and is there
+  | ["racewal", threads, rounds, _] => do
+    let n ← threads.toNat?
+    let rounds ← rounds.toNat?
+    let t := n * rounds
+    pure { d := d, view := none, branch := s!"wal-{n}x",
+           ret := s!"ok acks={t} live={t} fresh={t} extra=0 rev={t} freshrev={t}" }
   -- a real krill aggregate (RepositoryAccess): no model, judged by the oracle only
   | "real" :: kind :: _ => some { d := d, ret := "", view := none, branch := kind }
   | _ => none
@@ -573,6 +581,14 @@ def sectionOracle {iv} (d : DSt iv) (op ows : List String) : List String :=
           | some c => c.actor == actor && c.effect.isInit
           | none => false)
       | _, _ => [])
+   | ["racewal", _, _, _] =>
+     let n := fun k => ((kv? ows k).getD "").toNat?
+     (match n "acks", n "live", n "fresh", n "extra", n "rev", n "freshrev" with
+      | some acks, some live, some fresh, some extra, some rev, some frev =>
+        -- none lost (live and after a restart), none applied twice / nothing foreign, one version per command
+        named "none_lost_or_twice" (live == acks && fresh == acks && extra == 0) ++
+        named "versions_consecutive" (rev == acks && frev == acks)
+      | _, _, _, _, _, _ => ["unparsable-observation"])
    | ["raceadd", _, _, _] =>
      let n := fun k => ((kv? ows k).getD "").toNat?
      (match n "acks", n "reload", n "multi" with
@@ -679,7 +695,7 @@ def stepD {iv} (prop : String) (d : DSt iv) (line : String) : DSt iv × String :
         else if op.head? == some "hist" then
           " ".intercalate (ows.filter fun w => w.startsWith "ret=" || w.startsWith "total=" || w.startsWith "offset=" || w.startsWith "recs=")
             |>.drop 4 |>.toString
-        else if op.head? == some "raceadd" then (" ".intercalate ows).drop 4 |>.toString
+        else if op.head? == some "raceadd" || op.head? == some "racewal" then (" ".intercalate ows).drop 4 |>.toString
         else obsRet ows
       let viewOk := match m.view with
         | none => true
